@@ -88,9 +88,14 @@ func c19One(c *ev.Ctx, cs ev.Case) {
 	base := img.Gen(r, cc.Class, cc.Alpha, cc.W, cc.H)
 	o := webp.DefaultOptions()
 	o.Lossless, o.Method, o.Quality, o.Exact, o.UseSharpYUV, o.Preprocessing = cc.Lossless, cc.Method, cc.Quality, cc.Exact, cc.Sharp, cc.Prep
+	baseSum := ev.Sum(base.Pix)
 	ref, err := encode(base, o)
 	if err != nil {
 		c.Violate(cs, "encode-error", nil, err.Error(), nil)
+		return
+	}
+	if ev.Sum(base.Pix) != baseSum { // the canonical placement (tight NRGBA at the origin) is a caller's image too
+		c.Violate(cs, "caller-image-modified", map[string]string{"placement": "origin"}, "Encode modified the caller's pixel buffer (tightly packed *image.NRGBA at the origin)", map[string]string{"opts": optString(o)})
 		return
 	}
 	key := func(what string) string {
